@@ -143,16 +143,38 @@ func hxRegion(c hxConsumer, tbl map[string][]c05MapEntry, implY, implG []string)
 	return ""
 }
 
-// hxDecode: which probe was served, from the identities printed by the methods.
-func hxDecode(c hxConsumer, out string) string {
-	for _, p := range c.Probes {
-		i := strings.Index(out, "."+p.Methods[0]+":")
+// hxDecode: which probe was served, from the identities printed by the interpreted methods.
+// interp == nil: every method of the operand is interpreted.  Otherwise interp tells which methods
+// are interpreted; a probe whose method is promoted from an embedded COMPILED type prints nothing,
+// it counts as served when no interpreted method of the probes left its identity.
+func hxDecode(c hxConsumer, out string, interp map[string]bool) string {
+	marker := func(m string) int {
+		i := strings.Index(out, "."+m+":")
 		if i < 0 {
-			i = strings.Index(out, "."+p.Methods[0]+"/")
+			i = strings.Index(out, "."+m+"/")
 		}
 		// an identity inside a field-by-field dump ("{...}") comes from a nested field, not from the operand
-		if i >= 0 && !strings.Contains(out[:i], "{") {
-			return p.Name
+		if i >= 0 && strings.Contains(out[:i], "{") {
+			return -1
+		}
+		return i
+	}
+	anyMarker := false
+	for _, p := range c.Probes {
+		if (interp == nil || interp[p.Methods[0]]) && marker(p.Methods[0]) >= 0 {
+			anyMarker = true
+		}
+	}
+	for _, p := range c.Probes {
+		m := p.Methods[0]
+		if interp == nil || interp[m] {
+			if marker(m) >= 0 {
+				return p.Name
+			}
+			continue
+		}
+		if has, ok := interp[m]; ok && !has && !anyMarker {
+			return p.Name // compiled method present in the method set, nothing interpreted ran
 		}
 	}
 	if len(c.Static) > 0 {
@@ -173,6 +195,9 @@ type hxProbe struct {
 	Code     string
 	Desc     string
 	NoCoq    bool // compared with compiled Go only
+	// Interp: nil when all methods of the operand are interpreted; else method -> true (interpreted) /
+	// false (promoted from an embedded compiled type); absent = not in the method set
+	Interp map[string]bool
 }
 
 type c05HostX struct {
@@ -217,8 +242,8 @@ func hxMethodSrc(t string, m string, ptr bool) string {
 	return ""
 }
 
-const hxHeader = "package main\n\nimport (\n\t\"bytes\"\n\t\"encoding/json\"\n\t\"errors\"\n\t\"flag\"\n\t\"fmt\"\n\t\"io\"\n\t\"log\"\n\t\"sort\"\n\t\"strconv\"\n\t\"strings\"\n)\n\n" +
-	"var (\n\t_ = bytes.NewBuffer\n\t_ = json.Marshal\n\t_ = errors.Is\n\t_ = flag.NewFlagSet\n\t_ = io.EOF\n\t_ = log.New\n\t_ = sort.Sort\n\t_ = strconv.Itoa\n\t_ = strings.NewReader\n\ttrace string\n)\n\n" +
+const hxHeader = "package main\n\nimport (\n\t\"bufio\"\n\t\"bytes\"\n\t\"encoding/json\"\n\t\"errors\"\n\t\"flag\"\n\t\"fmt\"\n\t\"io\"\n\t\"log\"\n\t\"sort\"\n\t\"strconv\"\n\t\"strings\"\n)\n\n" +
+	"var (\n\t_ = bufio.NewReader\n\t_ = bytes.NewBuffer\n\t_ = json.Marshal\n\t_ = errors.Is\n\t_ = flag.NewFlagSet\n\t_ = io.EOF\n\t_ = log.New\n\t_ = sort.Sort\n\t_ = strconv.Itoa\n\t_ = strings.NewReader\n\ttrace string\n)\n\n" +
 	"func try(label string, f func() string) {\n\tdefer func() {\n\t\tif r := recover(); r != nil {\n\t\t\tfmt.Println(label, \"PANIC\")\n\t\t}\n\t}()\n\tfmt.Println(label, f())\n}\n\n"
 
 // the expressions handing an operand to a compiled function, per consumer
@@ -306,8 +331,11 @@ func (hb *hxBuilder) probe(c hxConsumer, implY, implG []string, expr, desc strin
 	fmt.Fprintf(&hb.main, "\ttry(%q, func() string { return %s })\n", p.Label, expr)
 }
 
-func (hb *hxBuilder) finish(kind string) *c05HostX {
-	src := hxHeader + hb.b.String() + "func main() {\n" + hb.main.String() + "}\n"
+func (hb *hxBuilder) finish(kind string) *c05HostX { return hb.finishWith(kind, "") }
+
+func (hb *hxBuilder) finishWith(kind, extraImports string) *c05HostX {
+	hdr := strings.Replace(hxHeader, "import (\n", "import (\n"+extraImports, 1)
+	src := hdr + hb.b.String() + "func main() {\n" + hb.main.String() + "}\n"
 	return &c05HostX{src: src, probes: hb.probes, kind: kind}
 }
 
@@ -375,6 +403,192 @@ func genHostXPairs(tbl map[string][]c05MapEntry) []*c05HostX {
 	progs = append(progs, hb.finish("pairs-json-io"))
 	progs = append(progs, genHostXMisc(tbl))
 	return progs
+}
+
+// ---------------------------------------------------------------- provenance of the probed methods
+//
+// Every method of the composed interfaces (io.Reader + io.WriterTo, io.Writer + io.ReaderFrom, and
+// io.StringWriter) is, independently: declared on the interpreted type, promoted from an embedded
+// interpreted struct, or promoted from an embedded COMPILED type (*bytes.Buffer, bytes.Buffer by
+// value, *strings.Reader, *bufio.Reader, *bufio.Writer), directly or through an interpreted struct.
+// getWrapper must look at the FULL method set (interpreted and promoted from compiled types).
+// Interpreted methods leave their identity in a trace and delegate to the embedded compiled value;
+// the oracle is compiled Go.
+
+type hxBase struct {
+	Type    string   // embedded field type
+	Field   string   // its field name
+	Methods []string // methods of our alphabet in the method set of *T through this field
+	YSees   []string // those yaegi's methods() reports (a compiled type embedded by value shows its value methods only)
+	Init    string   // expression for the field, reading "hello" (src) / writing to out (dst)
+	ByValue bool
+}
+
+var hxSrcBases = []hxBase{
+	{"*bytes.Buffer", "Buffer", []string{"Read", "WriteTo"}, []string{"Read", "WriteTo"}, "bytes.NewBufferString(\"hello\")", false},
+	{"bytes.Buffer", "Buffer", []string{"Read", "WriteTo"}, nil, "", true},
+	{"*strings.Reader", "Reader", []string{"Read", "WriteTo"}, []string{"Read", "WriteTo"}, "strings.NewReader(\"hello\")", false},
+	{"*bufio.Reader", "Reader", []string{"Read", "WriteTo"}, []string{"Read", "WriteTo"}, "bufio.NewReader(strings.NewReader(\"hello\"))", false},
+}
+
+var hxDstBases = []hxBase{
+	{"*bytes.Buffer", "Buffer", []string{"ReadFrom", "Write", "WriteString"}, []string{"ReadFrom", "Write", "WriteString"}, "&bytes.Buffer{}", false},
+	{"bytes.Buffer", "Buffer", []string{"ReadFrom", "Write", "WriteString"}, nil, "", true},
+	{"*bufio.Writer", "Writer", []string{"ReadFrom", "Write", "WriteString"}, []string{"ReadFrom", "Write", "WriteString"}, "bufio.NewWriter(&out)", false},
+}
+
+func hxProvMethod(t, path, m string) string {
+	rc := "(r *" + t + ")"
+	id := t + "." + m + ":;"
+	switch m {
+	case "Read":
+		return fmt.Sprintf("func %s Read(p []byte) (int, error) { trace += \"%s\"; return r.%s.Read(p) }\n\n", rc, id, path)
+	case "WriteTo":
+		return fmt.Sprintf("func %s WriteTo(w io.Writer) (int64, error) {\n\ttrace += \"%s\"\n\tn, err := w.Write([]byte(\"<%s>\"))\n\treturn int64(n), err\n}\n\n", rc, id, t)
+	case "Write":
+		return fmt.Sprintf("func %s Write(p []byte) (int, error) { trace += \"%s\"; return r.%s.Write(p) }\n\n", rc, id, path)
+	case "ReadFrom":
+		return fmt.Sprintf("func %s ReadFrom(rd io.Reader) (int64, error) {\n\ttrace += \"%s\"\n\tb, err := io.ReadAll(rd)\n\tr.%s.Write(b)\n\treturn int64(len(b)), err\n}\n\n", rc, id, path)
+	case "WriteString":
+		return fmt.Sprintf("func %s WriteString(x string) (int, error) { trace += \"%s\"; return r.%s.WriteString(x) }\n\n", rc, id, path)
+	}
+	return ""
+}
+
+// genHostXProvenance: all bases x {direct, through an interpreted struct} x all subsets of interpreted overrides.
+func genHostXProvenance(r *rng, tbl map[string][]c05MapEntry) []*c05HostX {
+	var progs []*c05HostX
+	k := 0
+	for role, bases := range [][]hxBase{hxSrcBases, hxDstBases} {
+		hb := &hxBuilder{tbl: tbl}
+		rej := &hxBuilder{tbl: tbl} // value-embedded compiled type providing the static method: yaegi rejects the program
+		rej.b.WriteString("type sink struct{ b *bytes.Buffer }\n\nfunc (s sink) Write(p []byte) (int, error) { return s.b.Write(p) }\n\nfunc lim() io.Reader { return io.LimitReader(strings.NewReader(\"abc\"), 9) }\n\n")
+		main := hb
+		hb.b.WriteString("type sink struct{ b *bytes.Buffer }\n\nfunc (s sink) Write(p []byte) (int, error) { return s.b.Write(p) }\n\nfunc lim() io.Reader { return io.LimitReader(strings.NewReader(\"abc\"), 9) }\n\n")
+		own := []string{"Read", "WriteTo"}
+		if role == 1 {
+			own = []string{"ReadFrom", "Write", "WriteString"}
+		}
+		for _, base := range bases {
+			for depth := 1; depth <= 2; depth++ {
+				for _, sub := range hxSubsets(own) {
+					k++
+					hb = main
+					static := "Read"
+					if role == 1 {
+						static = "Write"
+					}
+					rejected := base.ByValue && !hxSubset([]string{static}, sub)
+					if rejected {
+						if depth != 1 || len(sub) != 0 {
+							continue
+						}
+						hb = rej
+					}
+					tn := fmt.Sprintf("PT%d", k)
+					in := fmt.Sprintf("PI%d", k)
+					// where the interpreted overrides are declared: on the type itself or (depth 2) on the inner struct
+					onInner := depth == 2 && r.bool()
+					if depth == 1 {
+						fmt.Fprintf(&hb.b, "type %s struct {\n\t%s\n\tN int\n}\n\n", tn, base.Type)
+					} else {
+						fmt.Fprintf(&hb.b, "type %s struct {\n\t%s\n\tA int\n}\n\ntype %s struct {\n\t*%s\n\tN int\n}\n\n", in, base.Type, tn, in)
+					}
+					path := base.Field
+					declOn := tn
+					if depth == 2 && !onInner {
+						path = in + "." + base.Field
+					}
+					if onInner {
+						declOn = in
+					}
+					interp := map[string]bool{}
+					for _, m := range base.Methods {
+						interp[m] = false
+					}
+					for _, m := range sub {
+						hb.b.WriteString(hxProvMethod(declOn, path, m))
+						interp[m] = true
+					}
+					implG := append([]string{}, base.Methods...)
+					implY := append(append([]string{}, base.YSees...), sub...)
+					sort.Strings(implY)
+					implY = hxDedup(implY)
+					// construction of the operand
+					var mk string
+					fieldInit := base.Field + ": " + base.Init
+					switch {
+					case base.ByValue && depth == 1:
+						mk = "x := &" + tn + "{}"
+					case base.ByValue:
+						mk = "x := &" + tn + "{" + in + ": &" + in + "{}}"
+					case depth == 1:
+						mk = "x := &" + tn + "{" + fieldInit + "}"
+					default:
+						mk = "x := &" + tn + "{" + in + ": &" + in + "{" + fieldInit + "}}"
+					}
+					desc := fmt.Sprintf("%s depth %d interpreted %v", base.Type, depth, sub)
+					fix := func() {
+						p := hb.probes[len(hb.probes)-1]
+						p.Interp = interp
+						if base.ByValue && p.Region == "host-ptr-recv" {
+							p.Region = "host-value-embed"
+						}
+						if rejected {
+							p.Region, p.NoCoq = "host-value-embed", true
+						}
+						informative := false
+						for _, pr := range p.Consumer.Probes {
+							informative = informative || interp[pr.Methods[0]]
+						}
+						if !informative {
+							// every candidate method is compiled: which one ran cannot be observed; compared with compiled Go only
+							p.NoCoq = true
+						}
+					}
+					if role == 0 {
+						fill := ""
+						if base.ByValue {
+							fill = "x.Buffer.WriteString(\"hello\"); "
+						}
+						hb.probe(hxConsumerOf("io.Copy.src", ""), implY, implG,
+							"func() string { trace = \"\"; var out bytes.Buffer; "+mk+"; "+fill+"n, err := io.Copy(sink{&out}, x); return trace + fmt.Sprint(n, err, out.String()) }()", "io.Copy(sink, "+desc+")", false)
+						fix()
+						hb.probe(hxConsumerOf("io.ReadAll", ""), implY, implG,
+							"func() string { trace = \"\"; var out bytes.Buffer; _ = out; "+mk+"; "+fill+"b, err := io.ReadAll(x); return trace + fmt.Sprint(string(b), err) }()", "io.ReadAll("+desc+")", false)
+						fix()
+					} else {
+						res := "x.String()"
+						if base.Field == "Writer" {
+							res = "func() string { x.Flush(); return out.String() }()"
+						}
+						hb.probe(hxConsumerOf("io.Copy.dst", ""), implY, implG,
+							"func() string { trace = \"\"; var out bytes.Buffer; _ = out; "+mk+"; n, err := io.Copy(x, lim()); return trace + fmt.Sprint(n, err, "+res+") }()", "io.Copy("+desc+", limited)", false)
+						fix()
+						hb.probe(hxConsumerOf("io.WriteString", ""), implY, implG,
+							"func() string { trace = \"\"; var out bytes.Buffer; _ = out; "+mk+"; n, err := io.WriteString(x, \"abc\"); return trace + fmt.Sprint(n, err, "+res+") }()", "io.WriteString("+desc+")", false)
+						fix()
+					}
+				}
+			}
+		}
+		kind := "provenance-src"
+		if role == 1 {
+			kind = "provenance-dst"
+		}
+		progs = append(progs, main.finishWith(kind, ""), rej.finishWith(kind+"-rejected", ""))
+	}
+	return progs
+}
+
+func hxDedup(l []string) []string {
+	var res []string
+	for i, x := range l {
+		if i == 0 || x != l[i-1] {
+			res = append(res, x)
+		}
+	}
+	return res
 }
 
 // genHostXRandom: a chain H0 <- H1 <- H2 (embedding by value or by pointer); the fmt / json methods
